@@ -14,7 +14,12 @@
 #ifndef HM_CAP
 #    define HM_CAP 6
 #endif
-#define HM_TABLES 1 /* one table per harness: the element objects are global */
+#ifndef HM_TABLES
+#    define HM_TABLES 1
+#endif
+#if HM_TABLES > 3
+#    error "hash model: at most 3 tables"
+#endif
 #if HM_CAP > 8
 #    error "hash model: at most 8 elements"
 #endif
@@ -23,17 +28,20 @@ struct hash_table_state {
     aws_hash_callback_eq_fn *equals_fn;
     aws_hash_callback_destroy_fn *destroy_key_fn, *destroy_value_fn;
     size_t n;
+    size_t t; /* table number: selects the row of element objects */
     bool used[HM_CAP];
     uint64_t code[HM_CAP];
 };
-/* Every element is its OWN top-level object (one table per harness).  A pointer into an array of structs has a symbolic offset
+/* Every element is its OWN top-level object (up to 3 tables of up to 8 elements per harness).  A pointer into an array of structs has a symbolic offset
  * for CBMC, and a read through it is field-INsensitive: the value set of element->value then contains every key as well, and the
  * library's list code is executed for nodes "at" key objects, vtables, the allocator ... (measured: 37 M clauses for three puts,
  * 80 % of them in aws_linked_list_remove).  Distinct objects keep the offset constant and the reads field-sensitive. */
 static struct hash_table_state hm_pool[HM_TABLES];
-static struct aws_hash_element hm_e0, hm_e1, hm_e2, hm_e3, hm_e4, hm_e5, hm_e6, hm_e7;
-static struct aws_hash_element *const hm_ep[8] = {&hm_e0, &hm_e1, &hm_e2, &hm_e3, &hm_e4, &hm_e5, &hm_e6, &hm_e7};
-#define EL(s, i) (*hm_ep[i])
+#define HM_ROW(t) static struct aws_hash_element hm_e##t##_0, hm_e##t##_1, hm_e##t##_2, hm_e##t##_3, hm_e##t##_4, hm_e##t##_5, hm_e##t##_6, hm_e##t##_7;
+HM_ROW(0) HM_ROW(1) HM_ROW(2)
+#define HM_PTRS(t) {&hm_e##t##_0, &hm_e##t##_1, &hm_e##t##_2, &hm_e##t##_3, &hm_e##t##_4, &hm_e##t##_5, &hm_e##t##_6, &hm_e##t##_7}
+static struct aws_hash_element *const hm_ep[3][8] = {HM_PTRS(0), HM_PTRS(1), HM_PTRS(2)};
+#define EL(s, i) (*hm_ep[(s)->t][i])
 static size_t hm_next;
 static uint64_t hm_hash(struct hash_table_state *s, const void *k) { return s->hash_fn(k); }
 static bool hm_eq(struct hash_table_state *s, const void *a, const void *b) {
@@ -57,6 +65,7 @@ int aws_hash_table_init(struct aws_hash_table *map, struct aws_allocator *alloc,
     ASSERT(map != NULL && hash_fn != NULL && equals_fn != NULL, "aws_hash_table_init: preconditions");
     ASSERT(hm_next < HM_TABLES, "hash model: more tables than HM_TABLES (bound of the model, not the property)");
     struct hash_table_state *s = &hm_pool[hm_next];
+    s->t = hm_next;
     hm_next++;
     s->hash_fn = hash_fn; s->equals_fn = equals_fn; s->destroy_key_fn = destroy_key_fn; s->destroy_value_fn = destroy_value_fn;
     s->n = 0;
@@ -106,3 +115,42 @@ void aws_hash_table_clean_up(struct aws_hash_table *map) {
     aws_hash_table_clear(map);
     map->p_impl = NULL;
 }
+int aws_hash_table_put(struct aws_hash_table *map, const void *key, void *value, int *was_created) {
+    struct aws_hash_element *e;
+    int created;
+    if (aws_hash_table_create(map, key, &e, &created)) return AWS_OP_ERR;
+    if (was_created) *was_created = created;
+    struct hash_table_state *s = map->p_impl;
+    if (!created) { /* real table: the old key is destroyed only if it is a different pointer; the old value always */
+        if (e->key != key) hm_dk(s, (void *)e->key);
+        hm_dv(s, e->value);
+    }
+    e->key = key;
+    e->value = value;
+    return AWS_OP_SUCCESS;
+}
+int aws_hash_table_remove_element(struct aws_hash_table *map, struct aws_hash_element *p_value) { /* no destructors (real table: s_remove_entry only) */
+    struct hash_table_state *s = map->p_impl;
+    bool found = false;
+    for (size_t i = 0; i < HM_CAP; ++i)
+        if (s->used[i] && p_value == &EL(s, i)) { s->used[i] = false; found = true; }
+    ASSERT(found, "aws_hash_table_remove_element: the element belongs to this table and is live (precondition of the real table)");
+    s->n--;
+    return AWS_OP_SUCCESS;
+}
+static int hm_cb(int (*callback)(void *context, struct aws_hash_element *pElement), void *context, struct aws_hash_element *e) { return callback(context, e); }
+int aws_hash_table_foreach(struct aws_hash_table *map, int (*callback)(void *context, struct aws_hash_element *pElement), void *context) {
+    struct hash_table_state *s = map->p_impl;
+    for (size_t i = 0; i < HM_CAP; ++i) /* slot order: the real table's order is unspecified as well */
+        if (s->used[i]) {
+            int rv = hm_cb(callback, context, &EL(s, i));
+            if (rv & AWS_COMMON_HASH_TABLE_ITER_ERROR) { if (aws_last_error() == AWS_ERROR_SUCCESS) aws_raise_error(AWS_ERROR_UNKNOWN); return AWS_OP_ERR; }
+            if (rv & AWS_COMMON_HASH_TABLE_ITER_DELETE) { s->used[i] = false; s->n--; }
+            if (!(rv & AWS_COMMON_HASH_TABLE_ITER_CONTINUE)) break;
+        }
+    return AWS_OP_SUCCESS;
+}
+/* pointer keys: any hash function consistent with pointer equality is a valid aws_hash_ptr; the constant one makes every pair of keys
+ * collide, so equality alone decides (the real function is lookup3 over the pointer's bytes) */
+uint64_t aws_hash_ptr(const void *item) { (void)item; return 0; }
+bool aws_ptr_eq(const void *a, const void *b) { return a == b; }
